@@ -286,26 +286,53 @@ def revokePermT : List Token → Res Cmd1 := grantLike false "FROM" Cmd1.revokeP
 /-! ### REMEMBER (`remember.rs`) -/
 def startsWith (p s : Str) : Bool := (stripPrefix p s).isSome
 
-/-- byte/char index of the last occurrence of `pat` in `s` (`str::rfind`) -/
+/-- UTF-8 length of a character (Rust strings are UTF-8; `rfind` and slicing work on byte offsets) -/
+def utf8Len (c : Char) : Nat :=
+  if c.toNat < 0x80 then 1 else if c.toNat < 0x800 then 2 else if c.toNat < 0x10000 then 3 else 4
+
+def byteLen (s : Str) : Nat := (s.map utf8Len).foldr (· + ·) 0
+
+/-- `str::rfind(pat)`: BYTE offset of the last occurrence of `pat` in `s` (`i` = byte offset reached) -/
 def rfindFrom (pat : Str) : Str → Nat → Option Nat → Option Nat
   | [], i, best => if startsWith pat [] then some i else best
-  | c :: cs, i, best => rfindFrom pat cs (i + 1) (if startsWith pat (c :: cs) then some i else best)
+  | c :: cs, i, best => rfindFrom pat cs (i + utf8Len c) (if startsWith pat (c :: cs) then some i else best)
 
 def rfind (pat s : Str) : Option Nat := rfindFrom pat s 0 none
 
+/-- `&s[..n]` / `&s[n..]`: split at BYTE offset `n`; `none` when `n` is out of bounds or not a
+character boundary — Rust panics there. -/
+def splitAtByte : Str → Nat → Option (Str × Str)
+  | [], n => if n = 0 then some ([], []) else none
+  | c :: cs, n =>
+    if n = 0 then some ([], c :: cs)
+    else if utf8Len c ≤ n then
+      (match splitAtByte cs (n - utf8Len c) with
+       | some (a, b) => some (c :: a, b)
+       | none => none)
+    else none
+
+/-- `remember.rs::parse`. The offset of the last " AS " is computed in an upper-cased COPY of the text and
+then used to slice the ORIGINAL: `remainder[..as_idx]`, `remainder[as_idx + 4..]`. The copy is made with
+`to_ascii_uppercase` (pinned by the constants extractor), which keeps every byte position; a slice at a
+byte offset that is not a character boundary of the original is the `panic` branch (proved unreachable:
+`Snel.Lemmas.ParserRemember`). The leading `REMEMBER` (8 ASCII bytes: the first word has matched it) is
+dropped by characters. -/
 def rememberP (S : Sites) (U : Uni) (input : Str) : Res Cmd1 :=
   let remainder := trimStartU U ((trimU U input).drop 8)
   if remainder.isEmpty then .error else
   match rfind " AS ".toList (remainder.map upper) with
   | none => .error
   | some idx =>
-    let queryPart := trimU U (remainder.take idx)
-    if queryPart.isEmpty then .error else
-    if !startsWith "QUERY".toList (queryPart.map upper) then .error else
-    let alias := trimU U (remainder.drop (idx + 4))
-    if alias.isEmpty then .error else
-    if !validAlias alias then .error else
-    (ofP (queryP S (fuelOf queryPart) queryPart)).map (Cmd1.remember alias)
+    match splitAtByte remainder idx, splitAtByte remainder (idx + 4) with
+    | some (before, _), some (_, after) =>
+      let queryPart := trimU U before
+      if queryPart.isEmpty then .error else
+      if !startsWith "QUERY".toList (queryPart.map upper) then .error else
+      let alias := trimU U after
+      if alias.isEmpty then .error else
+      if !validAlias alias then .error else
+      (ofP (queryP S (fuelOf queryPart) queryPart)).map (Cmd1.remember alias)
+    | _, _ => .panic
 
 /-! ### BATCH (`batch.rs`) -/
 /-- the collector loop: `some (buffer, closed)`; `none` on an error inside the loop.
@@ -461,6 +488,7 @@ theorem tie_topDispatch : Gen.C17.topDispatch.map (·.1) =
      "REVOKE", "LIST", "GRANT", "SHOW"] := by decide
 theorem tie_tokWhitespace : ∀ c : Nat, c < 128 → (Gen.C17.tokWhitespace.contains c = isTokWs (Char.ofNat c)) := by decide
 theorem tie_tokSymbols : ∀ c : Nat, c < 128 → (Gen.C17.tokSymbols.contains c = isTokSym (Char.ofNat c)) := by decide
+theorem tie_rememberUpperIsAscii : Gen.C17.rememberUpperIsAscii = true := by decide
 theorem tie_variants : Gen.C17.commandVariants =
     ["Define", "Store", "Query", "RememberQuery", "ShowMaterialized", "Replay", "Ping", "Flush", "Batch", "Compare",
      "CreateUser", "RevokeKey", "ListUsers", "GrantPermission", "RevokePermission", "ShowPermissions"] := by decide
